@@ -660,7 +660,6 @@ struct Ctx<'a> {
 struct Prepared {
     case: Case,
     real: RealOut,
-    doc_sexp: Sexp,
     /// request index of (json.of i) / (closure i) per definition, of (read …) per (path, definition)
     json_of: Vec<usize>,
     closure: Vec<usize>,
@@ -693,7 +692,7 @@ impl<'a> Ctx<'a> {
             }
             let doc_sexp = real.source.to_sexp();
             let n = real.source.defs.len();
-            let mut p = Prepared { case: case.clone(), real, doc_sexp: doc_sexp.clone(), json_of: vec![], closure: vec![], reads: vec![] };
+            let mut p = Prepared { case: case.clone(), real, json_of: vec![], closure: vec![], reads: vec![] };
             for i in 0..n {
                 p.json_of.push(reqs.len());
                 reqs.push(Sexp::call("json.of", vec![doc_sexp.clone(), Sexp::int(i as i128)]));
